@@ -66,4 +66,10 @@ Rows ==
 Cursor ==
   { <<"get", "0", "0", "0", "-1">>, <<"gat", "0", "0", "0", "f:600">>, <<"gat", "0", "0", "0", "f:1600">>,
     <<"putnew", "0", "0">>, <<"get", "TO", "0", "0", "-1">>, <<"get", "HO+1", "0", "0", "-1">> }
+\* fragmented trees ("frag" = one base frame allocated in every row of a tree): counters stay high while no
+\* block of order >= 6 is free, so allocations decrement a counter, fail in the lower allocator and must undo
+Frag ==
+  { <<"frag", "0">>, <<"frag", "1">>, <<"get", "6", "0", "0", "-1">>, <<"get", "6", "0", "-1", "-1">>,
+    <<"get", "7", "0", "0", "-1">>, <<"get", "HO", "1", "0", "-1">>, <<"get", "0", "0", "0", "-1">>,
+    <<"putnew", "0", "-1">>, <<"drain">> }
 =============================================================================
